@@ -512,6 +512,7 @@ def mt_cov(cases):
         "allocations": sm("mt", "allocs"), "local_frees": sm("mt", "local_frees"), "remote_frees": sm("mt", "remote_frees"), "handovers": sm("mt", "sends"), "pattern_verifications": sm("mt", "verified"),
         "events_replayed_by_lifetime_checker": sm("mt", "events"), "collects": sm("mt", "collects"), "thread_exits": sm("mt", "thread_exits"), "heap_deletes_racing_frees": sm("mt", "heap_deletes"),
         "allocations_checked_against_the_sub_process_rule": sm("mt", "subproc_allocs_checked"),
+        "destroyable_heaps_that_needed_fresh_segments_and_were_destroyed": sm("mt", "destroyable_heap_adoption_patterns"),
         "arena_claims": sm("mt", "claims"), "arena_claims_failed_for_space": sm("mt", "claims_failed"),
         "allocator_counters": core.merge_counts(cases, "mi"),
         "option_settings": sorted(set(c.meta.get("config", "") for c in cases)),
